@@ -736,4 +736,9 @@ def _lookup_keys(table, keys):
             return slice(start, None if stop <= 0 else stop)
 ''', "index2slice: match form in which a single negative entry runs to the end"),
     ("C18", "neutral", [], LOC, "        arr += 0.0\n", "        np.add(arr, 0.0, out=arr)\n", "_bytes_view: np.add(arr, 0.0, out=arr)"),
+    ("C18", "break", ["C18-R4"], N2P, "    edof = np.array([[node, int(i)] for node, arg in dof for i in str(arg)])\n", "    edof = np.array([[node, int(i)] for node, arg in dof for i in sorted(set(str(arg)))])\n", "expanddof: digits de-duplicated and sorted (order of the request lost)"),
+    ("C18", "break", ["C18-R4"], N2P, "    edof = np.array([[node, int(i)] for node, arg in dof for i in str(arg)])\n", "    edof = np.array([[node, int(i)] for node, arg in dof for i in reversed(str(arg))])\n", "expanddof: digits walked backwards"),
+    ("C18", "break", ["C18-R4"], N2P, "    edof = np.array([[node, int(i)] for node, arg in dof for i in str(arg)])\n", "    edof = np.array([[node, int(i)] for node, arg in sorted(dof.tolist()) for i in str(arg)])\n", "expanddof: request rows sorted by id"),
+    ("C18", "neutral", [], N2P, "    edof = np.array([[node, int(i)] for node, arg in dof for i in str(arg)])\n", "    edof = np.array([[node, int(i)] for node, arg in dof for i in list(str(arg))])\n", "expanddof: digits through list()"),
+    ("C18", "neutral", [], N2P, "    edof = np.array([[node, int(i)] for node, arg in dof for i in str(arg)])\n", "    rows = []\n    for node, arg in dof:\n        for ch in str(arg):\n            rows.append([node, int(ch)])\n    edof = np.array(rows)\n", "expanddof: digit expansion as a loop nest"),
 ]
